@@ -684,7 +684,8 @@ def generate(rng, tier, index):
     n_path = rng.between(1, 3)
     names = sorted(rng.sample(NAMES, rng.between(1, 8)))
     numstr = rng.chance(0.7)
-    cfg = {"logging": rng.weighted([("quiet", 5), ("default", 2), ("debug", 3)]), "kwcalls": rng.chance(0.25), "bufsize": rng.choice(BUFSIZES), "chunk": rng.choice([1, 8, 64, 8192, 8192]),
+    cfg = {"logging": rng.weighted([("quiet", 5), ("default", 2), ("debug", 3)]), "clock": core.gen_clock(rng),
+           "checks_off": rng.chance(0.25), "kwcalls": rng.chance(0.25), "bufsize": rng.choice(BUFSIZES), "chunk": rng.choice([1, 8, 64, 8192, 8192]),
            "fault_kinds": kinds, "fault_free": fault_free, "names": names}
     # op mix for this run (swarm)
     kinds_ops = ["addpar", "set", "set_parameters", "set_varylist", "set_variable_values",
@@ -789,6 +790,8 @@ def generate(rng, tier, index):
     # maintained object could depend on it, so it must not follow every step in every run)
     p_obs = rng.choice([1.0, 1.0, 0.5, 0.2])
     cfg["observe"] = [1 if rng.chance(p_obs) else 0 for _ in ops]
+    if rng.chance(0.005):
+        cfg["import_env"] = rng.choice(core.IMPORT_ENVS)
     return {"property": PROPERTY, "config": cfg, "ops": ops}
 
 
@@ -958,6 +961,17 @@ def execute(trace):
     logcfg = core.log_config(cfg.get("logging", "quiet"))
     logcfg.__enter__()
     count("logging." + logcfg.mode)
+    clock = core.sim_clock(cfg.get("clock"))
+    clock.__enter__()
+    import xfab as _xfab
+    switch_off = bool(cfg.get("checks_off"))
+    if switch_off:
+        # the package-wide input-check switch: process configuration that has nothing to do with parameter sets
+        try:
+            _xfab.CHECKS.activated = False
+            count("config.checks_switch_off")
+        except Exception:
+            pass
     P.open = sim_open
     builtins.open = sim_open
     io.open = sim_open
@@ -1369,6 +1383,16 @@ def execute(trace):
             except AttributeError:
                 pass
         logcfg.__exit__(None, None, None)
+        clock.__exit__(None, None, None)
+        if clock.reads:
+            count("probe.clock_reads_by_code_under_test", clock.reads)
+        if clock.jumped:
+            count("fault.clock_jump")
+        if switch_off:
+            try:
+                _xfab.CHECKS.activated = True
+            except Exception:
+                pass
     return {"violation": violation, "events": events, "counters": counters,
             "nontrivial": n_save >= 1 and n_load >= 1, "steps": len(events),
             "fault_free": bool(cfg.get("fault_free")),
